@@ -44,6 +44,11 @@ func main() {
 			fmt.Fprintln(os.Stderr, "harness:", err)
 			os.Exit(1)
 		}
+	case "pure":
+		if err := pureMain(os.Args[2:]); err != nil {
+			fmt.Fprintln(os.Stderr, "harness:", err)
+			os.Exit(1)
+		}
 	case "gen":
 		if err := genMain(os.Args[2:], false); err != nil {
 			fmt.Fprintln(os.Stderr, "harness:", err)
